@@ -262,6 +262,17 @@ func init() {
 		sec, ns := e.asInt(args[0]), e.asInt(args[1])
 		return e.mkTime(e.st.Bin(OpAdd, e.st.Bin(OpMul, sec, e.st.Const(64, 1000000000)), ns))
 	}
+	// tickers never fire inside a harness run (the tick body is called directly by harnesses)
+	intrinsics["time.NewTicker"] = func(e *Engine, fr *frame, fn *ssa.Function, args []Value) Value {
+		tt := e.P.ByPath["time"].Type("Ticker").Type()
+		p := new(Value)
+		z := e.zero(tt).(Struct)
+		z[0] = &Chan{Cap: 1} // field C
+		*p = z
+		return p
+	}
+	intrinsics["(*time.Ticker).Stop"] = noop
+	intrinsics["(*time.Ticker).Reset"] = noop
 	opaqueStr := func(e *Engine, fr *frame, fn *ssa.Function, args []Value) Value { return Str{S: "<opaque>"} }
 	intrinsics["(time.Time).String"] = opaqueStr
 	intrinsics["(time.Time).Format"] = opaqueStr
@@ -943,7 +954,7 @@ func init() {
 		b := args[0].(Slice)
 		var draw []*Term
 		for i := range b.V {
-			t := e.newInput("rand", "int", 8)
+			t := e.fresh("rand", 8) // not a replay input: natively crypto/rand supplies real randomness
 			b.V[i] = t
 			draw = append(draw, t)
 		}
